@@ -21,8 +21,8 @@ CHECKS = {
             'bijective base-26. Rows "0"/leading-zero rows are not demanded either way.', 'DESIGN.md §5 C19'),
     'C20': ('explicit-state exploration of on/once/off/emit histories on the real Emitter against an executable '
             'reference model (tree enumeration to depth 3/4 + state-merging BFS to closure); ' + K1,
-            'Every operation sequence up to depth 3 (quick) / 4 (thorough) over 33 operations - two event names, '
-            'plain, once, context-carrying, falsy and re-entrant callbacks that subscribe, unsubscribe and emit '
+            'Every operation sequence up to depth 3 (quick) / 4 (thorough) over 36 operations - two event names, '
+            'plain, once, context-carrying, falsy, bound-method (equal but not identical) and re-entrant callbacks that subscribe, unsubscribe and emit '
             'during delivery - is executed on a fresh real Emitter and on the reference model and the complete '
             'listener call logs are compared after every step and after a final probe; a state-merging search over '
             'model states runs to closure. This decides the property for all histories within those bounds.',
